@@ -269,8 +269,9 @@ C05 = [
         label="bounded", defines={"B64_N": n}, note="decode(encode(x)) == x, lengths, NUL, exact-size buffers, too-small target refused; all byte strings of length %d" % n)
     for n in (0, 1, 2, 3, 4)
 ] + [
-    Job(name="base64_decode_safe", driver="base64.drv.c", entry="hp_base64_decode_safe", mode="plain", unwind=70, min_post=0, cost=60, family="base64",
-        label="bounded", defines={"B64_S": 5}, note="decoder on an arbitrary 5-character string (all byte values) with any target size 0..5 or NULL: memory safe, returns -1 or a length within the target"),
+    Job(name="base64_decode_safe.t%d" % t, driver="base64.drv.c", entry="hp_base64_decode_safe", mode="plain", unwind=70, min_post=0, cost=10, family="base64",
+        label="bounded", defines={"B64_S": 5, "B64_T": t}, note="decoder on an arbitrary 5-character string (all byte values) with a target of exactly %d bytes or NULL: memory safe, returns -1 or a length within the target" % t)
+    for t in (0, 1, 2, 3, 4)
 ]
 PROPS["C05"] = C05
 
@@ -282,4 +283,4 @@ C06 = [
         note="hwloc__nolibxml_import_%s on an arbitrary 7-byte buffer + NUL (all byte values), cursors anywhere inside: memory safe, returns, cursors stay inside; strspn model; loops unwound 40 times" % fn)
     for fn in ("next_attr", "find_child", "close_tag", "get_content")
 ]
-PROPS["C06"] = C06
+PROPS["C06"] = C06 + [j for j in C05 if j.name.startswith("base64_decode_safe")]   # the decoder is also a leaf of the XML import (userdata)
